@@ -3,8 +3,8 @@
 //!
 //! replay (spec -> code), cases of spec/mc/MC_Unitary.tla and spec/mc/MC_UnitaryLift.tla:
 //!   kind "gate": {n, gate:{name, mods, qubits, np}, entries:[[r, c, {s, p}]]} — the sparse SYMBOLIC
-//!       matrix the specification expects.  The symbols are evaluated in f64 for five parameter
-//!       assignments and compared entry-wise with `Gate::to_unitary(n)` and with
+//!       matrix the specification expects.  The symbols are evaluated in f64 for 19 parameter
+//!       assignments (see `assignments`) and compared entry-wise with `Gate::to_unitary(n)` and with
 //!       `Program::to_unitary(n)` of the one-gate program.
 //!   kind "lift": {n, qubits, sub:[index map], steps, arr} — a placement explored by the model of the
 //!       lifting algorithm.  Probe gates of that arity are lifted by the real code to (qubits, n) and
@@ -225,21 +225,40 @@ pub fn unitarity_defect(a: &Mat) -> f64 {
     max_diff(&a.dot(&adjoint(a)), &id).0
 }
 
-/// The parameter assignments of a case: two seeded generic ones and three with the special angles
-/// 0, pi, -pi/3 (DESIGN.md section 6, C14).  `key` makes the seeded values depend on the case.
+/// The parameter assignments of a case (thetas[k-1] is the value of theta_k; FORKED gates have several).
+/// The rotation gates have period 4 pi, the phase gates 2 pi, so the values deliberately leave
+/// (-2 pi, 2 pi): a refactoring that "normalises" the angle (reduction modulo 2 pi, |theta| by symmetry,
+/// dropping a global phase, flushing tiny entries to zero) must show up as an entry-wise difference.
+///   g1        seeded reals in (-pi, pi)
+///   g2, g3    seeded reals in +-[2 pi, 20], g3 with the signs of g2 flipped
+///   a0 .. a2  the special angles 0, pi, -pi/3 (DESIGN.md section 6, C14)
+///   b0 .. b7  2 pi, -2 pi, 3 pi, -3 pi, 4 pi, 5 pi/2, -7 pi/2, -4 pi, rotated over the parameter positions
+///             (every parameter, hence every FORKED half, takes every one of them)
+///   c0, c1    large magnitudes (about +-1e3, and seeded +-[100, 1000])
+///   d0, d1    tiny magnitudes (1e-9 and 1e-11: entries of size 5e-10 / 5e-12 must not be flushed to 0)
+/// `key` makes the seeded values depend on the case.
 pub fn assignments(seed: u64, key: &str, np: usize) -> Vec<Vec<f64>> {
     let m = np.max(1);
     let mut r = util::rng(seed ^ crate::runner::hash_line(key), 14);
     let g1: Vec<f64> = (0..m).map(|_| r.gen_range(-PI..PI)).collect();
-    let g2: Vec<f64> = (0..m).map(|_| r.gen_range(-2.0 * PI..2.0 * PI)).collect();
+    if np == 0 {
+        return vec![g1];
+    }
+    let g2: Vec<f64> = (0..m).map(|_| r.gen_range(2.0 * PI..20.0) * if r.gen_bool(0.5) { 1.0 } else { -1.0 }).collect();
+    let g3: Vec<f64> = g2.iter().map(|t| -t.signum() * r.gen_range(2.0 * PI..20.0)).collect();
     let a0: Vec<f64> = (0..m).map(|k| if k % 2 == 0 { 0.0 } else { PI }).collect();
     let a1: Vec<f64> = (0..m).map(|k| if k % 2 == 0 { PI } else { -PI / 3.0 }).collect();
     let a2: Vec<f64> = (0..m).map(|k| -PI / 3.0 * (k as f64 + 1.0)).collect();
-    if np == 0 {
-        vec![g1]
-    } else {
-        vec![g1, g2, a0, a1, a2]
+    let outside = [2.0 * PI, -2.0 * PI, 3.0 * PI, -3.0 * PI, 4.0 * PI, 2.5 * PI, -3.5 * PI, -4.0 * PI];
+    let mut all = vec![g1, g2, g3, a0, a1, a2];
+    for j in 0..outside.len() {
+        all.push((0..m).map(|k| outside[(j + k) % outside.len()]).collect());
     }
+    all.push((0..m).map(|k| (1000.0 + 37.0 * k as f64) * if k % 2 == 0 { 1.0 } else { -1.0 }).collect());
+    all.push((0..m).map(|_| r.gen_range(100.0..1000.0) * if r.gen_bool(0.5) { 1.0 } else { -1.0 }).collect());
+    all.push((0..m).map(|k| 1e-9 * (k as f64 + 1.0) * if k % 2 == 0 { 1.0 } else { -1.0 }).collect());
+    all.push((0..m).map(|k| 1e-11 * (k as f64 + 1.0) * if k % 2 == 0 { -1.0 } else { 1.0 }).collect());
+    all
 }
 
 // ---------------------------------------------------------- the property, evaluated in Rust (reference)
@@ -502,9 +521,21 @@ pub fn replay(ctx: &Ctx, case: &Value) -> Outcome {
 
 /// Parameter values for which every symbol of the vocabulary has a different value (so that a numeric
 /// entry determines its symbol).
-pub fn generic_thetas(r: &mut impl Rng, np: usize) -> Vec<f64> {
+pub fn generic_thetas(r: &mut impl Rng, np: usize, band: u64) -> Vec<f64> {
+    // band 0: +-(0.2, 3.0);  band 1: +-(2 pi + 0.3, 4 pi - 0.3) -- an odd number of whole turns dropped
+    // flips the sign of the 4 pi-periodic rotation gates;  band 2: +-[4 pi, 20];  band 3: +-[100, 1000];
+    // band >= 4: every parameter position takes another band (k + band) % 4
+    let draw = |r: &mut dyn rand::RngCore, b: u64| -> f64 {
+        let mag = match b % 4 {
+            0 => r.gen_range(0.2..3.0),
+            1 => r.gen_range(2.0 * PI + 0.3..4.0 * PI - 0.3),
+            2 => r.gen_range(4.0 * PI..20.0),
+            _ => r.gen_range(100.0..1000.0),
+        };
+        mag * if r.gen_bool(0.5) { 1.0 } else { -1.0 }
+    };
     loop {
-        let thetas: Vec<f64> = (0..np).map(|_| r.gen_range(0.2..3.0) * if r.gen_bool(0.5) { 1.0 } else { -1.0 }).collect();
+        let thetas: Vec<f64> = (0..np).map(|k| draw(&mut *r, if band >= 4 { k as u64 + band } else { band })).collect();
         let mut vals: Vec<Complex64> = CONST_SYMBOLS.iter().map(|s| eval_symbol(s, 0.0)).collect();
         vals.push(Complex64::new(0.0, 0.0));
         for t in &thetas {
@@ -610,7 +641,8 @@ pub fn drive(ctx: &Ctx) -> Summary {
         let (name, k, np) = GATES[(h as usize) % GATES.len()];
         let n = rng.gen_range((k as u64).max(4)..=max_n.max(4));
         let qubits = random_placement(&mut rng, k, n);
-        let thetas = generic_thetas(&mut rng, np);
+        // first pass over the 22 gates: small angles; second: angles in +-(2 pi, 4 pi); then larger ones
+        let thetas = generic_thetas(&mut rng, np, (h / GATES.len() as u64) % 4);
         let gc = GateCase { name: name.into(), mods: vec![], qubits, np };
         let gate = build_direct(&gc, &thetas);
         util::emit(&mut out, &json!({"ev": "reset", "n": n, "thetas": theta_strings(&thetas)}));
